@@ -690,14 +690,33 @@ class Program:
             for g in c.gbodies:
                 if g in self.bodies:
                     out.add(g)
+            # function items passed as values (`fold_many1(get_duration_part, ..)`, `.map(AccountKeyStorage::new)`)
+            for a in c.args:
+                self._fn_const(a, out)
         for b in body.blocks:
             if b.get("cleanup"):
                 continue
             for st in b["stmts"]:
-                if st["s"] == "assign" and st["rv"]["k"] == "agg" and st["rv"].get("def") in self.bodies:
-                    out.add(st["rv"]["def"])
+                if st["s"] != "assign":
+                    continue
+                rv = st["rv"]
+                if rv["k"] == "agg" and rv.get("def") in self.bodies:
+                    out.add(rv["def"])
+                for key in ("op", "a", "b"):
+                    if isinstance(rv.get(key), dict):
+                        self._fn_const(rv[key], out)
+                for o in rv.get("ops", []) if rv["k"] == "agg" else []:
+                    self._fn_const(o, out)
         # an async fn returns its coroutine
         return out
+
+    def _fn_const(self, op, out):
+        c = op.get("const") if isinstance(op, dict) else None
+        if c and "fn" in c:
+            for nm in (c.get("res"), c.get("fn")):
+                for cand in (nm, strip_generics(nm) if nm else None):
+                    if cand and cand in self.bodies:
+                        out.add(cand)
 
     def call_graph(self):
         if self._callers is None:
